@@ -21,10 +21,12 @@ func init() {
 			"(R6) per-key state is per key: every pointer stored into an API-key token or the key map inside updateAPIKeys' loop (the token, its expiry time) is allocated anew between any two executions of the store, so no two keys share an expiry. " +
 			"(R7) lock pairing over the functions of package(s) api: " + lockRuleText + ". " +
 			"(R8) error discipline over package api without the database API: " + repoErrText + ". " +
+			"(R9) a session is refreshed (its lifetime extended) only after it was found not to be expired - also when the refresh is deferred; " +
 			"NOT decided: net/http and gorilla/mux behaviour, the header grammar beyond guards, session TTL timing.",
 		Rules: []ruleFn{c12R1, c12R2, c12R3, c12R4, c12R5, c12R6,
 			lockRuleFor("C12-R7", 12, []string{"api"}, []string{}, map[string]string{}),
-			repoErrRuleFor("C12-R8", 30, func(c *Ctx, fn *ssa.Function) bool { return short(fn.Pkg.Pkg.Path()) == "api" && !inFile(c, fn, "api/database.go") }, map[string]string{"api.(*mainHandler).ServeHTTP / modules.Module.RunWorker": "the request worker reports its own errors to the client and the module error channel; ServeHTTP has nobody to return to", "api.start / api.updateAPIKeys": "updateAPIKeys logs invalid keys itself and always returns nil"})},
+			repoErrRuleFor("C12-R8", 30, func(c *Ctx, fn *ssa.Function) bool { return short(fn.Pkg.Pkg.Path()) == "api" && !inFile(c, fn, "api/database.go") }, map[string]string{"api.(*mainHandler).ServeHTTP / modules.Module.RunWorker": "the request worker reports its own errors to the client and the module error channel; ServeHTTP has nobody to return to", "api.start / api.updateAPIKeys": "updateAPIKeys logs invalid keys itself and always returns nil"}),
+			c12R9},
 	})
 }
 
@@ -947,4 +949,22 @@ func c12R6(c *Ctx, r *Report) {
 		}
 		r.Check(okAll, rule, cons, "allocated anew for every key", "API keys share one object: "+why+"; every key inherits the value written for the last one (an expired key stays valid)", c.Pos(in.Pos()))
 	})
+}
+
+func c12R9(c *Ctx, r *Report) {
+	const rule = "C12-R9"
+	r.SetFloor(rule, 1)
+	notExpired := callGuard("sess.Expired()==false", false, "api.session.Expired")
+	n := 0
+	for _, site := range c.CallSites("api.session.Refresh") {
+		if fnKey(site.Fn) == "api.createSession" {
+			r.Trivial(rule, fnKey(site.Fn)+" / session refreshed", "initialises the lifetime of a session it has just created")
+			continue
+		}
+		n++
+		c.RequireGuards(r, rule, fnKey(site.Fn)+" / session refreshed", site.Fn, site.Instr, notExpired)
+	}
+	if n == 0 {
+		r.Undecided(rule, "api.session.Refresh", "no refresh site found")
+	}
 }
